@@ -49,6 +49,7 @@ fn main() {
             }
         }
         "backend" => println!("{}", props::backend()),
+        "selftest" => selftest(),
         _ => usage(),
     }
 }
@@ -186,4 +187,44 @@ fn cmd_replay(args: &[String]) {
     }
     eprintln!("no configuration labelled {label} for {prop}");
     std::process::exit(2);
+}
+
+
+/// Executable check of the symmetry argument (DESIGN 3.7): the canonical
+/// states of the reduced search must equal the image of the unreduced search.
+fn selftest() {
+    use explore::{Harness, Limits, Stats};
+    use keys::*;
+    use mapsut::*;
+    use std::collections::BTreeSet;
+    let mut ok = true;
+    for (plan, u) in [(Plan::Zero, 5u8), (Plan::Cluster(2), 5), (Plan::Last, 5), (Plan::Max, 4)] {
+        let mk = |reduce: bool| {
+            let mut c = MapCfg::new(plan, u);
+            c.reduce = reduce;
+            c.max_buckets = 32;
+            MapHarness::<TKey, TVal>::new(c)
+        };
+        let (hr, hu) = (mk(true), mk(false));
+        let st = Stats::default();
+        let or = explore::bfs(&hr, vec![vec![]], &Limits::default(), &st);
+        let ou = explore::bfs(&hu, vec![vec![]], &Limits::default(), &st);
+        assert!(or.violation.is_none() && ou.violation.is_none() && or.exhaustive && ou.exhaustive);
+        let reduced: BTreeSet<Vec<u8>> = or.canon_of.iter().cloned().collect();
+        let mut image: BTreeSet<Vec<u8>> = BTreeSet::new();
+        for i in 0..ou.states {
+            let hist = ou.history(i);
+            let sut = explore::replay(&hr, &hist, &st).expect("replay");
+            image.insert(hr.canon(&sut));
+            hr.finish(sut).expect("finish");
+        }
+        let same = reduced == image;
+        println!(
+            "SYMMETRY-SELF-TEST backend={} plan={} universe={} reduced_states={} unreduced_states={} image_of_unreduced={} {}",
+            props::backend(), plan.name(), u, or.states, ou.states, image.len(), if same { "OK" } else { "MISMATCH" }
+        );
+        ok &= same;
+    }
+    // determinism: the same search twice gives the same numbering
+    std::process::exit(if ok { 0 } else { 2 });
 }
